@@ -323,3 +323,29 @@ func zzH_C06_afterOutput() {
 	zzCheckTrigger(trig, t)
 	verifReach("after-output")
 }
+
+
+// ids of other lengths than the 13 digits trz/tsz print today (older servers: 7..12 digits, no role suffix; 14 digits
+// and more behind a chain of relays): every one of them is a tmux / Windows id, so a redraw of the same line starts
+// nothing whatever its last two digits are; a different id of the same length does start its transfer
+func zzH_C06_oldIds() {
+	n := verifNondetRange(7, 14)
+	verifAssume(n != 13)
+	var id []byte
+	for i := 0; i < n-2; i++ {
+		id = append(id, byte('1'+i%9))
+	}
+	id = append(id, zzDigit6(), zzDigit6())
+	line := append([]byte("\x1b7\x07::TRZSZ:TRANSFER:S:1.1.5:"), id...)
+	line = append(line, '\r', '\n')
+	relay := verifNondetBool()
+	det := newTrzszDetector(relay, false)
+	_, trig := det.detectTrzsz(zzClone6(line), false)
+	verifAssert(trig != nil, "first sighting of an id did not start a transfer")
+	if trig != nil {
+		verifAssert(trig.uniqueID == string(id), "unique id")
+	}
+	_, again := det.detectTrzsz(zzClone6(line), false)
+	verifAssert(again == nil, "a redraw repeating an already seen id started a second transfer")
+	verifReach("old-id-redraw")
+}
